@@ -1339,8 +1339,25 @@ class Summaries:
         raise Gap('bytes view of %r' % (v,))
 
     def lower(self, st, s):
-        # A-LOWER: denominations handled by the contracts are already lower-case
-        return self.to_str(st, s)
+        """str::to_lowercase.  Literals are lower-cased; for a symbolic string x the result is a fresh string r with
+        is_lower(x) -> r = x, not is_lower(x) -> r != x, is_lower(r)  (is_lower: uninterpreted predicate on string ids, fixed on
+        the interned literals).  The pair is recorded so that a replay can spell x with upper-case letters."""
+        I = self.I
+        sv = self.to_str(st, s)
+        if isinstance(sv.id, int):
+            if sv.id in I.strings_rev:
+                return StrV(I.intern(I.strings_rev[sv.id].lower()))
+            return sv
+        is_lower = z3.Function('str_is_lower', z3.IntSort(), z3.BoolSort())
+        r = I.fresh('lowered')
+        cs = [z3.Implies(is_lower(sv.id), r == sv.id), z3.Implies(z3.Not(is_lower(sv.id)), r != sv.id), is_lower(r)]
+        for lit, i in list(I.strings.items()):
+            cs.append(is_lower(i) == (lit == lit.lower()))
+            if lit != lit.lower():
+                cs.append(z3.Implies(sv.id == i, r == I.intern(lit.lower())))
+        st.add(*cs)
+        st.ghost['lowers'] = st.ghost.get('lowers', ()) + ((sv.id, r),)
+        return StrV(r)
 
     def to_cosmos(self, st, m):
         I = self.I
